@@ -138,6 +138,10 @@ impl Args {
                 }
             }
         }
+        // hang watchdog (CPU time of one evaluation, never wall-clock time)
+        let budget = std::env::var("VERIF_HANG_BUDGET_S").ok().and_then(|v| v.parse::<f64>().ok())
+            .unwrap_or(if args.tier == Tier::Thorough { 900.0 } else { 300.0 });
+        crate::shard::start_hang_watchdog(&args.prop, &args.root, budget);
         args
     }
 
@@ -181,11 +185,13 @@ impl Report {
     #[inline]
     pub fn eval(&mut self) {
         self.evaluations += 1;
+        crate::shard::tick();
     }
 
     #[inline]
     pub fn evals(&mut self, n: u64) {
         self.evaluations += n;
+        crate::shard::tick();
     }
 
     /// Register a distinct non-trivial case by its structural hash.
@@ -434,6 +440,12 @@ impl Report {
         for (k, v) in tables {
             coverage.insert(k, v);
         }
+        let (hang_budget, max_gap) = crate::shard::hang_budget_and_max_gap();
+        coverage.insert("hang_watchdog".into(), json!({
+            "budget_cpu_s_per_evaluation": hang_budget,
+            "largest_cpu_gap_between_evaluations_seen_s": max_gap,
+            "rule": "a worker thread that burns more CPU time than the budget without completing one monitored evaluation is reported as <ID>/hang",
+        }));
         coverage.insert("inconclusive".into(), json!(self.inconclusive));
         coverage.insert("known_findings_seen".into(), Value::Array(known_hits));
         coverage.insert("violation_witnesses".into(), Value::Array(violation_records));
